@@ -492,5 +492,396 @@ theorem payload_damage_after_records (ps : Nat) (crc : Crc) (hdet : CrcDetects1 
     rloop_done (rstep_damaged ps crc ⟨0 + A.length, 0, [], ty'⟩ typ d d' B hty hlen h16 hd.1 (hdet d d' hd))]
   simp [prep]
 
+/-! ### Cut fragments completed by zeros -/
+
+theorem frame_drop7 (crc : Crc) (typ : UInt8) (part : Bytes) : (frame crc typ part).drop 7 = part := by
+  simp [frame, be16, be32]
+
+theorem zeros_append (a b : Nat) : zeros a ++ zeros b = zeros (a + b) := by
+  simp [zeros, List.replicate_append_replicate]
+
+theorem cut_drop_zeros (l : Bytes) (c z n : Nat) (hc : c ≤ l.length) (h : c ≤ n) :
+    (l.take c ++ zeros z).drop n = zeros (z - (n - c)) := by
+  have hl : (l.take c).length = c := by simp [List.length_take]; omega
+  rw [List.drop_append, List.drop_of_length_le (by omega), hl]
+  simp [zeros]
+
+theorem cut_take_zeros (l : Bytes) (c z n : Nat) (hc : c ≤ l.length) (h : c ≤ n) :
+    (l.take c ++ zeros z).take n = l.take c ++ zeros (min (n - c) z) := by
+  have hl : (l.take c).length = c := by simp [List.length_take]; omega
+  rw [List.take_append, List.take_of_length_le (by omega), hl]
+  simp [zeros]
+
+/-- A prefix of `x ++ zeros` that lies inside `x`. -/
+theorem cut_prefix_inside (l : Bytes) (c z : Nat) (cs rest : Bytes) (hc : c ≤ l.length)
+    (h : l.take c ++ zeros z = cs ++ rest) (hle : cs.length ≤ c) : l = cs ++ l.drop cs.length := by
+  have h1 : (cs ++ rest).take cs.length = cs := List.take_left' rfl
+  rw [← h, List.take_append_of_le_length (by simp [List.length_take]; omega), List.take_take,
+    Nat.min_eq_left hle] at h1
+  conv => lhs; rw [← List.take_append_drop cs.length l, h1]
+
+/-- **(ii) One fragment cut short and completed by zeros**: nothing, or one record made of the buffered
+    bytes, a prefix of the payload, and zeros. -/
+theorem rloop_frame_cut (ps : Nat) (crc : Crc) (st : RState) (typ : UInt8) (part : Bytes)
+    (hty : DataTyp typ) (hlen : part.length ≤ ps - 7) (h16 : part.length < 65536)
+    (hv : validateRecord typ st.i = none) (c z : Nat) (hc : c < 7 + part.length) :
+    (rloop ps crc st ((frame crc typ part).take c ++ zeros z)).1 = [] ∨
+      ∃ x m, (rloop ps crc st ((frame crc typ part).take c ++ zeros z)).1 =
+        [st.buf ++ part.take x ++ zeros m] := by
+  have hfl := frame_length crc typ part
+  have hcl : c ≤ (frame crc typ part).length := by omega
+  have hfull := rstep_frame ps crc st typ part [] hty hlen h16 hv
+  rw [List.append_nil] at hfull
+  have hloc := rstep_local ps crc st ((frame crc typ part).take c ++ zeros z)
+  unfold StepLocal at hloc
+  cases hr : rstep ps crc st ((frame crc typ part).take c ++ zeros z) with
+  | done status => left; rw [rloop_done hr]
+  | cont st' rest =>
+    rw [hr] at hloc
+    obtain ⟨cs, hcs0, hcs, htot, hX⟩ := hloc
+    have hclen : 0 < cs.length := List.length_pos_iff.mpr hcs0
+    have hgt : c < cs.length := by
+      apply Nat.lt_of_not_le
+      intro hle
+      have e := cut_prefix_inside _ c z cs rest hcl hcs hle
+      have h2 := hX ((frame crc typ part).drop cs.length)
+      rw [← e, hfull] at h2
+      split at h2
+      · cases h2
+      · simp only [StepR.cont.injEq] at h2
+        rw [← h2.1] at htot
+        simp at htot; omega
+    have hrest : rest = zeros (z - (cs.length - c)) := by
+      have h1 : (cs ++ rest).drop cs.length = rest := List.drop_left' rfl
+      rw [← hcs, cut_drop_zeros _ c z _ hcl (by omega)] at h1
+      exact h1.symm
+    left
+    rw [rloop_of_cont hr (by rw [hcs]; simp; omega), hrest, rloop_zeros_nil]
+  | emit rec st' rest =>
+    rw [hr] at hloc
+    obtain ⟨cs, hcs0, hcs, htot, hrec, hX⟩ := hloc
+    have hclen : 0 < cs.length := List.length_pos_iff.mpr hcs0
+    have hgt : c < cs.length := by
+      apply Nat.lt_of_not_le
+      intro hle
+      have e := cut_prefix_inside _ c z cs rest hcl hcs hle
+      have h2 := hX ((frame crc typ part).drop cs.length)
+      rw [← e, hfull] at h2
+      split at h2
+      · simp only [StepR.emit.injEq] at h2
+        rw [← h2.2.1] at htot
+        simp at htot; omega
+      · cases h2
+    have hrest : rest = zeros (z - (cs.length - c)) := by
+      have h1 : (cs ++ rest).drop cs.length = rest := List.drop_left' rfl
+      rw [← hcs, cut_drop_zeros _ c z _ hcl (by omega)] at h1
+      exact h1.symm
+    obtain ⟨m', hcsv⟩ : ∃ m', cs = (frame crc typ part).take c ++ zeros m' := by
+      have h1 : (cs ++ rest).take cs.length = cs := List.take_left' rfl
+      rw [← hcs, cut_take_zeros _ c z _ hcl (by omega)] at h1
+      exact ⟨_, h1.symm⟩
+    have hxl : ((frame crc typ part).take c).length = c := by simp [List.length_take]; omega
+    right
+    refine ⟨c - 7, m' - (7 - c), ?_⟩
+    rw [rloop_of_emit hr (by rw [hcs]; simp; omega), hrest, rloop_zeros_nil, hrec]
+    congr 1
+    rw [List.append_assoc]
+    congr 1
+    rw [hcsv, List.drop_append, List.drop_take, frame_drop7, hxl]
+    simp [zeros]
+
+/-- **(iii) The bytes of one record cut short and completed by zeros**: from a reader state in step with
+    the writer, nothing is returned, or one record `b ++ (prefix of enc) ++ zeros`. -/
+theorem frag_cut (ps : Nat) (crc : Crc) (h8 : 8 ≤ ps) (hmax : ps ≤ 65542) :
+    ∀ (fuel i alloc : Nat) (enc b : Bytes) (t : Nat) (ty : UInt8),
+      t % ps = alloc → alloc + 7 ≤ ps →
+      2 * enc.length + (if ps - alloc - 7 = 0 then 1 else 0) + 1 ≤ fuel → ∀ (c z : Nat),
+      (rloop ps crc ⟨t, i, b, ty⟩ ((fragBytes ps crc fuel i alloc enc).take c ++ zeros z)).1 = [] ∨
+      ∃ x m, (rloop ps crc ⟨t, i, b, ty⟩ ((fragBytes ps crc fuel i alloc enc).take c ++ zeros z)).1 =
+        [b ++ enc.take x ++ zeros m] := by
+  intro fuel
+  induction fuel with
+  | zero => intro i alloc enc b t ty _ _ hf; omega
+  | succ fuel ih =>
+    intro i alloc enc b t ty ht ha hf c z
+    by_cases hfit : enc.length ≤ ps - alloc - 7
+    · -- final fragment
+      rw [fragBytes_fit ps crc fuel i alloc enc hfit]
+      have hty : DataTyp (if i = 0 then recFull else recLast) := by
+        by_cases h : i = 0 <;> simp [h, DataTyp]
+      have hfin : ((if i = 0 then recFull else recLast) = recLast ∨
+          (if i = 0 then recFull else recLast) = recFull) := by
+        by_cases h : i = 0 <;> simp [h]
+      by_cases hc : c < 7 + enc.length
+      · rw [List.take_append_of_le_length (by rw [frame_length]; omega)]
+        exact rloop_frame_cut ps crc ⟨t, i, b, ty⟩ _ enc hty (by omega) (by omega) (validate_final i) c z hc
+      · right
+        refine ⟨enc.length, 0, ?_⟩
+        rw [List.take_append, List.take_of_length_le (by rw [frame_length]; omega)]
+        obtain ⟨k, hk⟩ : ∃ k, List.take (c - (frame crc (if i = 0 then recFull else recLast) enc).length)
+            (zeros (if ps - (alloc + 7 + enc.length) < 7 then ps - (alloc + 7 + enc.length) else 0)) ++ zeros z
+              = zeros k := ⟨_, by simp only [zeros, List.take_replicate, List.replicate_append_replicate]; rfl⟩
+        rw [List.append_assoc, hk]
+        have hstep := rstep_frame ps crc ⟨t, i, b, ty⟩ _ enc (zeros k) hty (by omega) (by omega) (validate_final i)
+        simp only [hfin, if_true] at hstep
+        rw [rloop_of_emit hstep (by simp [frame_length]; omega), rloop_zeros_nil]
+        simp [zeros]
+    · -- non-final fragment filling the page
+      have hno : ps - alloc - 7 < enc.length := by omega
+      rw [fragBytes_nofit ps crc fuel i alloc enc ha hno]
+      have hty : DataTyp (if i = 0 then recFirst else recMiddle) := by
+        by_cases h : i = 0 <;> simp [h, DataTyp]
+      have hfin : ¬ ((if i = 0 then recFirst else recMiddle) = recLast ∨
+          (if i = 0 then recFirst else recMiddle) = recFull) := by
+        by_cases h : i = 0 <;> simp [h] <;> decide
+      have hlen : (enc.take (ps - alloc - 7)).length = ps - alloc - 7 := by
+        simp [List.length_take]; omega
+      by_cases hc : c < 7 + (enc.take (ps - alloc - 7)).length
+      · rw [List.take_append_of_le_length (by rw [frame_length]; omega)]
+        rcases rloop_frame_cut ps crc ⟨t, i, b, ty⟩ _ (enc.take (ps - alloc - 7)) hty (by omega) (by omega)
+          (validate_nonfinal i) c z hc with h | ⟨x, m, h⟩
+        · exact Or.inl h
+        · exact Or.inr ⟨min x (ps - alloc - 7), m, by rw [h, List.take_take]⟩
+      · rw [List.take_append, List.take_of_length_le (by rw [frame_length]; omega), List.append_assoc]
+        have hstep := rstep_frame ps crc ⟨t, i, b, ty⟩ _ (enc.take (ps - alloc - 7))
+          (List.take (c - (frame crc (if i = 0 then recFirst else recMiddle) (enc.take (ps - alloc - 7))).length)
+            (fragBytes ps crc fuel (i + 1) 0 (enc.drop (ps - alloc - 7))) ++ zeros z)
+          hty (by omega) (by omega) (validate_nonfinal i)
+        simp only [hfin, if_false] at hstep
+        rw [rloop_of_cont hstep (by simp only [List.length_append, frame_length]; omega)]
+        have ht' : (t + 7 + (enc.take (ps - alloc - 7)).length) % ps = 0 := by
+          rw [hlen, Nat.add_assoc]; exact mod_add_eq ht (by omega)
+        have hfuel : 2 * (enc.drop (ps - alloc - 7)).length + (if ps - 0 - 7 = 0 then 1 else 0) + 1 ≤ fuel := by
+          have h0 : ¬ (ps - 0 - 7 = 0) := by omega
+          simp only [h0, if_false, List.length_drop]
+          by_cases hr : ps - alloc - 7 = 0
+          · simp [hr] at hf ⊢; omega
+          · simp [hr] at hf; omega
+        rcases ih (i + 1) 0 (enc.drop (ps - alloc - 7)) (b ++ enc.take (ps - alloc - 7))
+          (t + 7 + (enc.take (ps - alloc - 7)).length) (if i = 0 then recFirst else recMiddle) ht' (by omega) hfuel
+          (c - (frame crc (if i = 0 then recFirst else recMiddle) (enc.take (ps - alloc - 7))).length) z
+          with h | ⟨x, m, h⟩
+        · exact Or.inl h
+        · refine Or.inr ⟨ps - alloc - 7 + x, m, ?_⟩
+          show (rloop ps crc ⟨t + 7 + (enc.take (ps - alloc - 7)).length, i + 1, b ++ enc.take (ps - alloc - 7), _⟩ _).1 = _
+          rw [h, List.take_add]
+          simp [List.append_assoc]
+
+/-! ### The exact shape of what a cut log reads as -/
+
+/-- `out` = a prefix `recs.take j` of the records written, followed by nothing or by ONE extra record
+    `q ++ zeros m` where `q` is a prefix of the next record written, `recs[j]`. -/
+def CutShape (out recs : List Bytes) : Prop :=
+  ∃ j extra, out = recs.take j ++ extra ∧
+    (extra = [] ∨ ∃ r q m, recs[j]? = some r ∧ q <+: r ∧ extra = [q ++ zeros m])
+
+theorem CutShape.mono_right {out o1 : List Bytes} (o2 : List Bytes) (h : CutShape out o1) :
+    CutShape out (o1 ++ o2) := by
+  obtain ⟨j, extra, e, h⟩ := h
+  rcases h with h | ⟨r, q, m, hr, hq, hx⟩
+  · refine ⟨min j o1.length, extra, ?_, Or.inl h⟩
+    rw [List.take_append_of_le_length (Nat.min_le_right _ _), ← List.take_eq_take_min]; exact e
+  · have hj : j < o1.length := (List.getElem?_eq_some_iff.mp hr).1
+    refine ⟨j, extra, ?_, Or.inr ⟨r, q, m, ?_, hq, hx⟩⟩
+    · rw [List.take_append_of_le_length (by omega)]; exact e
+    · rw [List.getElem?_append_left hj]; exact hr
+
+theorem CutShape.cons_left {out o2 : List Bytes} (o1 : List Bytes) (h : CutShape out o2) :
+    CutShape (o1 ++ out) (o1 ++ o2) := by
+  obtain ⟨j, extra, e, h⟩ := h
+  refine ⟨o1.length + j, extra, ?_, ?_⟩
+  · rw [List.take_append, List.take_of_length_le (Nat.le_add_right _ _), Nat.add_sub_cancel_left, e,
+      List.append_assoc]
+  · rcases h with h | ⟨r, q, m, hr, hq, hx⟩
+    · exact Or.inl h
+    · refine Or.inr ⟨r, q, m, ?_, hq, hx⟩
+      rw [List.getElem?_append_right (Nat.le_add_right _ _), Nat.add_sub_cancel_left]; exact hr
+
+theorem CutShape.nil (recs : List Bytes) : CutShape [] recs := ⟨0, [], by simp, Or.inl rfl⟩
+
+theorem CutShape.refl (recs : List Bytes) : CutShape recs recs :=
+  ⟨recs.length, [], by simp, Or.inl rfl⟩
+
+/-- `Cut a d out`: the chunk `d` (which reads as `out`, see `Reads`) cut at ANY byte `c` and followed by
+    any number of zeros reads, from a between-records state at in-page offset `a`, as a `CutShape` of `out`. -/
+def Cut (ps : Nat) (crc : Crc) (a : Nat) (d : Bytes) (out : List Bytes) : Prop :=
+  ∀ (t : Nat) (ty : UInt8) (c z : Nat), t % ps = a → NonTorn ty →
+    CutShape (rloop ps crc ⟨t, 0, [], ty⟩ (d.take c ++ zeros z)).1 out
+
+/-- A chunk that reads back whole and is well behaved under every cut. -/
+def CReads (ps : Nat) (crc : Crc) (a : Nat) (d : Bytes) (a' : Nat) (out : List Bytes) : Prop :=
+  Reads ps crc a d a' out ∧ Cut ps crc a d out
+
+theorem CReads.nil (ps : Nat) (crc : Crc) (a : Nat) : CReads ps crc a [] a [] := by
+  refine ⟨Reads.nil ps crc a, ?_⟩
+  intro t ty c z _ _
+  simp only [List.take_nil, List.nil_append, rloop_zeros_nil]
+  exact CutShape.nil _
+
+theorem CReads.zeros {ps : Nat} (crc : Crc) {a : Nat} (hpos : 0 < a) (hlt : a < ps) :
+    CReads ps crc a (zeros (ps - a)) 0 [] := by
+  refine ⟨Reads.zeros crc hpos hlt, ?_⟩
+  intro t ty c z _ _
+  have : (Wal.zeros (ps - a)).take c ++ Wal.zeros z = Wal.zeros (min c (ps - a) + z) := by
+    simp only [Wal.zeros, List.take_replicate, List.replicate_append_replicate]
+  rw [this, rloop_zeros_nil]
+  exact CutShape.nil _
+
+theorem CReads.append {ps : Nat} {crc : Crc} {a b c : Nat} {d1 d2 : Bytes} {o1 o2 : List Bytes}
+    (h1 : CReads ps crc a d1 b o1) (h2 : CReads ps crc b d2 c o2) :
+    CReads ps crc a (d1 ++ d2) c (o1 ++ o2) := by
+  refine ⟨Reads.append h1.1 h2.1, ?_⟩
+  intro t ty n z ht hty
+  by_cases hn : n ≤ d1.length
+  · rw [List.take_append_of_le_length hn]
+    exact (h1.2 t ty n z ht hty).mono_right o2
+  · rw [List.take_append, List.take_of_length_le (by omega), List.append_assoc]
+    obtain ⟨ty1, hty1, hb, e1⟩ := h1.1 t ty (d2.take (n - d1.length) ++ Wal.zeros z) ht hty
+    rw [e1]
+    exact (h2.2 (t + d1.length) ty1 (n - d1.length) z hb hty1).cons_left o1
+
+theorem CReads.frag {ps : Nat} (crc : Crc) (h8 : 8 ≤ ps) (hmax : ps ≤ 65542) {a : Nat} (ha : a + 7 ≤ ps)
+    (rec : Bytes) :
+    ∃ a', a' + 7 ≤ ps ∧ CReads ps crc a (fragBytes ps crc (fragFuel rec) 0 a rec) a' [rec] := by
+  obtain ⟨a', ha', hr⟩ := Reads.frag crc h8 hmax ha rec
+  refine ⟨a', ha', hr, ?_⟩
+  intro t ty c z ht _
+  have hfuel : 2 * rec.length + (if ps - a - 7 = 0 then 1 else 0) + 1 ≤ fragFuel rec := by
+    unfold fragFuel; split <;> omega
+  rcases frag_cut ps crc h8 hmax (fragFuel rec) 0 a rec [] t ty ht ha hfuel c z with h | ⟨x, m, h⟩
+  · rw [h]; exact CutShape.nil _
+  · rw [h]
+    exact ⟨0, [rec.take x ++ Wal.zeros m], by simp, Or.inr ⟨rec, rec.take x, m, by simp, List.take_prefix _ _, rfl⟩⟩
+
+theorem CReads.flatten {ps : Nat} {crc : Crc} :
+    ∀ (sr : List (Bytes × List Bytes)), (∀ p ∈ sr, CReads ps crc 0 p.1 0 p.2) →
+      CReads ps crc 0 (sr.map Prod.fst).flatten 0 (sr.map Prod.snd).flatten := by
+  intro sr
+  induction sr with
+  | nil => intro _; simpa using CReads.nil ps crc 0
+  | cons p sr ih =>
+    intro h
+    have h1 := h p (by simp)
+    have h2 := ih (fun q hq => h q (by simp [hq]))
+    simpa using CReads.append h1 h2
+
+/-- Writer invariant (as `Inv`, with `CReads` instead of `Reads`). -/
+def CInv (ps : Nat) (crc : Crc) (st : WState) (recs : List Bytes) : Prop :=
+  ∃ (sr : List (Bytes × List Bytes)) (rsCur : List Bytes) (a : Nat),
+    st.done = sr.map Prod.fst ∧ (∀ p ∈ sr, CReads ps crc 0 p.1 0 p.2) ∧
+    a + 7 ≤ ps ∧ CReads ps crc 0 st.cur a rsCur ∧
+    (sr.map Prod.snd).flatten ++ rsCur = recs
+
+theorem CInv.init (ps : Nat) (crc : Crc) (h8 : 8 ≤ ps) : CInv ps crc WState.init [] :=
+  ⟨[], [], 0, rfl, by simp, by omega, CReads.nil ps crc 0, rfl⟩
+
+theorem CInv.logRec {ps : Nat} {crc : Crc} (pps : Nat) (h8 : 8 ≤ ps) (hmax : ps ≤ 65542)
+    {st : WState} {recs : List Bytes} (h : CInv ps crc st recs) (rec : Bytes) :
+    CInv ps crc (logRec ps pps crc st rec) (recs ++ [rec]) := by
+  obtain ⟨sr, rsCur, a, hdone, hsr, ha, hcur, hrecs⟩ := h
+  have hmod : st.cur.length % ps = a := hcur.1.end_mod
+  unfold Wal.logRec logStep applyStep
+  by_cases hcut : (rec.length : Int) > leftInSegment ps pps st.cur.length
+  · -- new segment
+    simp only [hcut, if_true]
+    obtain ⟨a', ha', hfrag⟩ := CReads.frag crc h8 hmax (a := 0) (by omega) rec
+    have hclosed : CReads ps crc 0 (st.cur ++ Wal.zeros (if st.cur.length % ps > 0 then ps - st.cur.length % ps else 0)) 0 rsCur := by
+      rw [hmod]
+      by_cases hz : a > 0
+      · simp only [hz, if_true]
+        have := CReads.append hcur (CReads.zeros crc hz (by omega))
+        simpa using this
+      · have : a = 0 := by omega
+        subst this
+        simpa [Wal.zeros] using hcur
+    refine ⟨sr ++ [(st.cur ++ Wal.zeros (if st.cur.length % ps > 0 then ps - st.cur.length % ps else 0), rsCur)],
+      [rec], a', ?_, ?_, ha', hfrag, ?_⟩
+    · simp [hdone]
+    · intro p hp
+      rcases List.mem_append.mp hp with hp | hp
+      · exact hsr p hp
+      · simp at hp; subst hp; exact hclosed
+    · simp [← hrecs]
+  · simp only [hcut, if_false]
+    obtain ⟨a', ha', hfrag⟩ := CReads.frag crc h8 hmax ha rec
+    rw [hmod]
+    exact ⟨sr, rsCur ++ [rec], a', hdone, hsr, ha', CReads.append hcur hfrag, by simp [← hrecs]⟩
+
+theorem CInv.logBatch {ps : Nat} {crc : Crc} (pps : Nat) (h8 : 8 ≤ ps) (hmax : ps ≤ 65542)
+    (batch : List Bytes) : ∀ {st : WState} {recs : List Bytes}, CInv ps crc st recs →
+    CInv ps crc (logBatch ps pps crc st batch) (recs ++ batch) := by
+  induction batch with
+  | nil => intro st recs h; simpa [Wal.logBatch] using h
+  | cons r rs ih =>
+    intro st recs h
+    have := ih (CInv.logRec pps h8 hmax h r)
+    simpa [Wal.logBatch, List.append_assoc] using this
+
+theorem CInv.logBatches {ps : Nat} {crc : Crc} (pps : Nat) (h8 : 8 ≤ ps) (hmax : ps ≤ 65542)
+    (batches : List (List Bytes)) : ∀ {st : WState} {recs : List Bytes}, CInv ps crc st recs →
+    CInv ps crc (batches.foldl (Wal.logBatch ps pps crc) st) (recs ++ batches.flatten) := by
+  induction batches with
+  | nil => intro st recs h; simpa using h
+  | cons b bs ih =>
+    intro st recs h
+    have := ih (CInv.logBatch pps h8 hmax b h)
+    simpa [List.append_assoc] using this
+
+theorem CInv.logAll {ps : Nat} {crc : Crc} (pps : Nat) (h8 : 8 ≤ ps) (hmax : ps ≤ 65542)
+    (batches : List (List Bytes)) : CInv ps crc (logAll ps pps crc batches) batches.flatten := by
+  simpa [Wal.logAll] using CInv.logBatches pps h8 hmax batches (CInv.init ps crc h8)
+
+theorem CInv.segments {ps : Nat} {crc : Crc} {st : WState} {recs : List Bytes} (h : CInv ps crc st recs) :
+    ∃ sr : List (Bytes × List Bytes), segments ps st = sr.map Prod.fst ∧
+      (∀ p ∈ sr, CReads ps crc 0 p.1 0 p.2) ∧ (sr.map Prod.snd).flatten = recs := by
+  obtain ⟨sr, rsCur, a, hdone, hsr, ha, hcur, hrecs⟩ := h
+  have hmod : st.cur.length % ps = a := hcur.1.end_mod
+  have hclosed : CReads ps crc 0 (closePad ps st.cur) 0 rsCur := by
+    unfold closePad; rw [hmod]
+    by_cases hz : a > 0
+    · simp only [hz, if_true]
+      simpa using CReads.append hcur (CReads.zeros crc hz (by omega))
+    · have : a = 0 := by omega
+      subst this; simpa using hcur
+  refine ⟨sr ++ [(closePad ps st.cur, rsCur)], by simp [Wal.segments, hdone], ?_, by simp [← hrecs]⟩
+  intro p hp
+  rcases List.mem_append.mp hp with hp | hp
+  · exact hsr p hp
+  · simp at hp; subst hp; exact hclosed
+
+/-- The whole stream of a closed log is well behaved under every cut. -/
+theorem written_stream_cut (ps pps : Nat) (crc : Crc) (h8 : 8 ≤ ps) (hmax : ps ≤ 65542)
+    (batches : List (List Bytes)) :
+    CReads ps crc 0 (segments ps (logAll ps pps crc batches)).flatten 0 batches.flatten := by
+  obtain ⟨sr, hseg, hsr, hrecs⟩ := (CInv.logAll pps h8 hmax batches (crc := crc)).segments
+  rw [hseg, ← hrecs]
+  exact CReads.flatten sr hsr
+
+/-- **The stream of a closed log cut at any byte `n` and followed by any number of zeros** reads as a
+    prefix of the records written plus at most one extra record `q ++ zeros m`, `q` a prefix of the next
+    record written. -/
+theorem stream_cut_shape (ps pps : Nat) (crc : Crc) (h8 : 8 ≤ ps) (hmax : ps ≤ 65542)
+    (batches : List (List Bytes)) (n z : Nat) :
+    CutShape (rloop ps crc RState.init
+      ((segStream ps (segments ps (logAll ps pps crc batches))).take n ++ zeros z)).1 batches.flatten := by
+  obtain ⟨_, hst, _⟩ := written_stream ps pps crc h8 hmax batches
+  rw [hst]
+  exact (written_stream_cut ps pps crc h8 hmax batches).2 0 0 n z (Nat.zero_mod _) nonTorn_zero
+
+/-- **Milestone 2: the log directory cut in segment `k` at byte `len`, read through the zero-padding
+    `segmentBufReader`**: exactly a prefix `recs.take j` of the records written, followed by nothing or by
+    one extra record `q ++ zeros m` with `q` a prefix of the next record written `recs[j]`. -/
+theorem readAll_truncSegs (ps pps : Nat) (crc : Crc) (h8 : 8 ≤ ps) (hmax : ps ≤ 65542)
+    (batches : List (List Bytes)) (k len : Nat)
+    (hk : k < (segments ps (logAll ps pps crc batches)).length) :
+    ∃ j extra, (readAll ps crc (truncSegs (segments ps (logAll ps pps crc batches)) k len)).1 =
+        batches.flatten.take j ++ extra ∧
+      (extra = [] ∨ ∃ r q m, batches.flatten[j]? = some r ∧ q <+: r ∧ extra = [q ++ zeros m]) := by
+  obtain ⟨hal, _, _⟩ := written_stream ps pps crc h8 hmax batches
+  obtain ⟨n, z, _, hs⟩ := segStream_truncSegs ps _ hal k len hk
+  unfold readAll
+  rw [hs]
+  exact (written_stream_cut ps pps crc h8 hmax batches).2 0 0 n z (Nat.zero_mod _) nonTorn_zero
+
 
 end Prom.Wal
